@@ -504,7 +504,7 @@ def r7(ctx: Ctx) -> None:
     ctx.require(n >= 1, f"{q}: no returning path")
 
 
-@rule("C20.H3", "mechanism shared with C18: the thresholds, volumes and weights an agent acts on are the configured ones, 0 included", "T13 lint (same rule as C18.R10, agents only)", floor=3)
+@rule("C20.H3", "mechanism shared with C18: the thresholds, volumes and weights an agent acts on are the configured ones, 0 included", "T13 lint (same rule as C18.R10, agents only)", floor=1)
 def h3(ctx: Ctx) -> None:
     from .events import check_or_defaults
 
